@@ -162,12 +162,12 @@ def observe(case):
                 out['fetch_fast'] = [bytes(x.raw()).hex() for x in r2]
             except Exception as e:
                 out['fetch_fast'] = 'error:' + type(e).__name__
-        # Genome route (names without description only: Genome.from_file splits the .fai on white space)
-        if all(' ' not in r[0] for r in case['recs']) and not case['crlf']:
+        # Genome route (contig names are the first word of each header)
+        if not case['crlf']:
             try:
                 g = bnp.Genome.from_file(path, filter_function=lambda x: True)
                 s = g.read_sequence()
-                gi = g.get_intervals(Interval.from_entry_tuples([(r[0], 0, len(r[1])) for r in case['recs']]))
+                gi = g.get_intervals(Interval.from_entry_tuples([(r[0].split()[0], 0, len(r[1])) for r in case['recs']]))
                 out['genome'] = [x.to_string().encode('latin1').hex() for x in s[gi]]
             except Exception as e:
                 out['genome'] = 'error:' + type(e).__name__ + str(e)[:80]
